@@ -481,6 +481,7 @@ ServerWrite(env) ==
         /\ UNCHANGED sin
      \/ \* reply to a unary request with undecodable metadata: an error status, no handler
         /\ env.r = 0 /\ env.t = 1 /\ env.s = 1 /\ env.code # OK /\ env.b = 0
+        /\ env.h = 1 /\ KindOfMeth(env.meth) = "unary"
         /\ ~\E h \in DOMAIN hnds : hnds[h].kind = "unary" /\ hnds[h].id = env.id /\ hnds[h].ret /\ ~hnds[h].trW
         /\ Sin(env.id).may > 0
         /\ G("wire", env.h = 1 /\ <<env.meth, env.dst, env.src, env.ns>> \in Sin(env.id).hdrs)
